@@ -13,11 +13,13 @@ def run(tier, prop=PROP, keep=KEEP):
     lmax = 256 if thorough else 64
     nproc = min(14, NCPU)
     wd = workdir("aead")
-    for cfg in ["stable", "nightly"]:
-        reps = parallel(cfg, lambda o, k, n: ["aead-tamper", cf, o, ck.seed, lmax if cfg == "stable" else min(lmax, 24), k, n], nproc, os.path.join(wd, "tp_" + cfg))
-        route(ck, reps, "" if cfg == "stable" else "[nightly] ", keep)
-    reps = parallel("stable", lambda o, k, n: ["stream-tamper", o, ck.seed, 60 if thorough else 24, k, n], nproc, os.path.join(wd, "stp"))
-    route(ck, reps, "[stream] ", keep)
+    for cfg in ["stable", "nightly", RELEASE]:
+        reps = parallel(cfg, lambda o, k, n: ["aead-tamper", cf, o, ck.seed, lmax if cfg == "stable" else min(lmax, 24 if cfg == "nightly" else 12), k, n], nproc, os.path.join(wd, "tp_" + cfg))
+        route(ck, reps, "" if cfg == "stable" else "[%s] " % cfg, keep)
+    # (the stream code has paths of its own under the simd_backend feature and under the optimised profile)
+    for cfg in ["stable", RELEASE, "simd"]:
+        reps = parallel(cfg, lambda o, k, n: ["stream-tamper", o, ck.seed, (60 if thorough else 24) if cfg == "stable" else 12, k, n], nproc, os.path.join(wd, "stp_" + cfg))
+        route(ck, reps, "[stream] " if cfg == "stable" else "[stream, %s] " % cfg, keep)
     rows = len(set((c["cons"], c["open"], c["fault"]) for c in cases))
     if not ck.cov["distinct_nontrivial"]:
         ck.cov["distinct_nontrivial"] = rows * (lmax + 1)
